@@ -4,6 +4,7 @@ import Driver.Kv
 import Driver.Codec
 import Driver.Timer
 import Driver.Http
+import Driver.Det
 import Driver.RtOracle
 import Driver.Conc
 import Driver.Mw
@@ -33,6 +34,8 @@ def dispatchNamed : List String → Option (String → String)
   | ["model", "mw-fixed"] => some (Driver.Mw.modelWith true)
   | ["model", "http"] => some Driver.Http.model
   | ["oracle", "http"] => some Driver.Http.oracle
+  | ["model", "det"] => some Driver.Det.model
+  | ["oracle", "det"] => some Driver.Det.oracle
   | ["model", "cli"] => some Driver.Cli.model
   | ["oracle", "cli"] => some Driver.Cli.oracle
   | _ => none
